@@ -6,22 +6,17 @@ bottom-right cell: it writes the glyph one column to the left, moves the cursor 
 (`ich1`), which pushes the glyph into the last cell, and repaints the cell it borrowed.  Layer A (`Lemmas/DrawCorner.lean`)
 carries this through the cross-Show invariant on the abstract terminal (`ATerm.insertAt`).  Here:
 
-* `ich_feed` — `CSI @` on the reference emulator is ICH with count 1;
-* `sim_insertChar` — **the simulation step for `Cmd.insertChar`** in the situation the trick creates (`AdmitIch`: the cursor is in
-  the last-but-one column on a narrow glyph the terminal is known to show, nothing is known to straddle the margin): the
-  emulator, fed the bytes of `ich1`, represents `ATerm.insertAt` — the glyph has moved into the last column with its
-  rendition, the borrowed cell is an erased cell (nothing claimed), the cursor has not moved, no wrap is pending, nothing
-  else on the screen has changed;
+* `ich_feed` — `CSI @` on the reference emulator is ICH with count 1; `ichFx_of`: hence `IchFx` for every description whose `ich1`
+  is (padding removed) `CSI @`;
+* (`sim_insertChar`, `AdmitIch`, `IchFx` live in `Lemmas/LayerBCmd.lean`: **the simulation step for `Cmd.insertChar`** is a case of
+  `sim_cmd`; `Lemmas/LayerBAdmit.lean` `corner_step` proves every `ich1` of every draw admissible — the history theorems for
+  corner-trick terminals are `Props.C01B.cl_show_faithful_bytes` …);
 * `corner_trick_bytes` — the whole first half of the trick `goto (w-2, y); setPen s; put glyph; goto (w-2, y); ich1`, from ANY
   emulator state that represents the abstract terminal, for every terminal description with `CapsFx` and an `ich1` that is
   `CSI @`: the emulator shows the glyph with `penOf rc s` in the LAST column of row `y`, the cursor is known and in column
   `w-2` with no wrap pending (so the screen has not scrolled) and the tokenizer has not complained;
-* `xl_capsFx'` / `cygwin_corner_bytes` — `CapsFx` does not depend on the corner-trick conjunct of the class (`CapsOk`), so the
-  statement holds without effect hypotheses for the database entry cygwin (the corner-trick entry all of whose other strings are
-  in the class; beterm's `op` is `CSI m`, sun / sun-color clear with FF and have no `smul`: not covered).
-
-Not done: admitting `Cmd.insertChar` in `draw_admits` (i.e. the byte-level history theorems for the corner-trick entries);
-that needs the Layer-A corner invariant (`World.SafeRun`) threaded through `LayerBAdmit`.
+* `xl_corner_trick_bytes` / `Props.C01B.cygwin_corner_bytes` — `CapsFx` does not depend on the corner-trick conjunct of the class
+  (`CapsOk`), so the statement holds without effect hypotheses for the database entries of `CornerLike`.
 -/
 import Tcell.Lemmas.LayerBXtermFx
 namespace Tcell.LayerB
